@@ -811,7 +811,7 @@ def error_class(msg):
 def evaluate(ctx, checks):
     """Evaluate all Coq booleans in parallel shards; returns set of indices (into checks) that are false."""
     failed = set()
-    for what, pre, SH in (('trace', PRE_TRACE, 120), ('semantics', PRE_NUM, 14)):
+    for what, pre, SH in (('trace', PRE_TRACE, 120), ('ejectz', PRE_EJECTZ, 120), ('semantics', PRE_NUM, 14)):
         idxs = [i for i, c in enumerate(checks) if c['what'] == what]
         shards = []
         for s0 in range(0, len(idxs), SH):
@@ -840,6 +840,9 @@ def report(ctx, checks, failed):
             what = (f'{cfg.id}: the output does not mean the same as the input ({c["stream"].split(":")[-1]} compared through the reference semantics, '
                     f'contract={cfg.contract}); {c["desc"]}\noutput:\n{c["rep"]["output_diagram"][:600]}')
             ctx.disagree(f'validation:{c["stream"]}', what, sig, what, dict(kind='semantics', **c['rep']))
+        elif 'ejectz' in d or (d.get('trace') and d['trace']['stream'].startswith('eject_z[model]')):
+            c = d.get('ejectz') or d['trace']
+            ctx.mark_broken(f'correspondence:{c["stream"]}', f'the Gallina model of eject_z\'s loop and the transformer disagree ({c["stream"]}); {c["desc"]}\noutput:\n{c["rep"].get("output_diagram", "")[:600]}')
         elif 'trace' in d:
             c = d['trace']
             what = f'{c["cfg"].id}: output is not trace equivalent to the input (dependent operations exchanged; the semantics of this instance agree numerically); {c["desc"]}\noutput:\n{c["rep"]["output_diagram"][:600]}'
@@ -958,6 +961,114 @@ def root_cause(cirq, cfg, circuit, out, deep):
         if g:
             f.append(f'decompose-disagrees-with-unitary:{g}')
     return '+'.join(f)
+
+
+PRE_EJECTZ = ('From Coq Require Import List ZArith Bool Arith.\nFrom VF Require Import Base.Harness Xform.EjectZ.\nImport ListNotations.\nOpen Scope Z_scope.\n'
+              'Definition nle := list_eqb Nat.eqb.\n'
+              'Definition oop_eqb (a b : oop nat) : bool := match a, b with\n'
+              ' | OZ q p, OZ q2 p2 => Nat.eqb q q2 && Z.eqb p p2\n'
+              ' | OGate g qs ps, OGate g2 qs2 ps2 => Nat.eqb g g2 && nle qs qs2 && list_eqb Z.eqb ps ps2\n'
+              ' | OSwap g a c, OSwap g2 a2 c2 => Nat.eqb g g2 && Nat.eqb a a2 && Nat.eqb c c2\n'
+              ' | OMeas g qs, OMeas g2 qs2 => Nat.eqb g g2 && nle qs qs2\n'
+              ' | OOpaque g qs, OOpaque g2 qs2 => Nat.eqb g g2 && nle qs qs2\n'
+              ' | _, _ => false end.\n')
+
+
+def ejectz_model_stream(ctx, cirq, checks, case_no, n):
+    """Correspondence of the Gallina model of eject_z's loop (Xform/EjectZ.v) with the real transformer, over the model's alphabet
+    with dyadic exponents (phase unit 1/16 turn).  A python replica of the bookkeeping is only a bridge: Coq checks
+    model(input) == replica's symbolic output, and the real output must be trace equivalent (trace_equiv_b) to the operations the
+    replica predicts through cirq.phase_by."""
+    import random
+    nat = lambda xs: '[' + '; '.join(f'{int(x)}%nat' for x in xs) + ']'
+    zl = lambda xs: '[' + '; '.join(coq.zlit(x) for x in xs) + ']'
+    for k in range(n):
+        rng = random.Random(f'{ctx.seed}:ejectz-model:{k}')
+        nq = rng.randint(1, 3)
+        qs = cirq.LineQubit.range(nq)
+        iops, cops = [], []
+        for i in range(rng.randint(2, 10)):
+            r = rng.random()
+            q = rng.randrange(nq)
+            pair = rng.sample(range(nq), 2) if nq >= 2 else None
+            if r < 0.3:
+                kk = rng.choice([1, 2, 4, 8, -2, 3, 16, -8, 12, 32, 5])
+                iops.append(('Z', q, kk)); cops.append(cirq.Z(qs[q]) ** (kk / 8))
+            elif r < 0.5:
+                g = rng.choice([cirq.PhasedXPowGate(phase_exponent=rng.choice([0.0, 0.25, 0.125, -0.5]), exponent=rng.choice([1.0, 0.5, 0.25])),
+                                cirq.X ** rng.choice([1.0, 0.5]), cirq.Y ** rng.choice([1.0, -0.5])])
+                iops.append(('G', i, [q])); cops.append(g.on(qs[q]))
+            elif r < 0.62 and pair:
+                iops.append(('G', i, pair)); cops.append((cirq.CZ ** rng.choice([1.0, 0.5, -0.25])).on(*[qs[x] for x in pair]))
+            elif r < 0.74 and pair:
+                g = rng.choice([cirq.SWAP, cirq.ISWAP, cirq.ISWAP ** -1, cirq.FSimGate(theta=np.pi / 2, phi=0.3)])
+                iops.append(('S', i, pair)); cops.append(g.on(*[qs[x] for x in pair]))
+            elif r < 0.82:
+                ms = rng.sample(range(nq), rng.randint(1, nq))
+                iops.append(('M', i, ms)); cops.append(cirq.measure(*[qs[x] for x in ms], key=f'k{i}'))
+            else:
+                c3 = rng.random()
+                if c3 < 0.4:
+                    o, oq = cirq.H(qs[q]), [q]
+                elif c3 < 0.7 or not pair:
+                    o, oq = (cirq.X(qs[q]) ** 0.5).with_tags(IGN), [q]
+                else:
+                    o, oq = cirq.CZ(*[qs[x] for x in pair]).with_tags(IGN), pair
+                iops.append(('O', i, oq)); cops.append(o)
+        circuit = cirq.Circuit()
+        for o in cops:
+            circuit.append(o, strategy=cirq.InsertStrategy.NEW if rng.random() < 0.3 else cirq.InsertStrategy.EARLIEST)
+        # the order in which the transformer visits the operations is the circuit's
+        order = list(circuit.all_operations())
+        idx = [next(j for j, o in enumerate(cops) if o is v) for v in order]
+        iops_v, cops_v = [iops[j] for j in idx], [cops[j] for j in idx]
+        # replica (bridge)
+        ph = {q: 0 for q in range(nq)}
+        sym, exp_ops = [], []
+        def dump(which):
+            for x in which:
+                if ph[x] % 16:
+                    sym.append(f'OZ {x}%nat {coq.zlit(ph[x])}'); exp_ops.append(cirq.Z(qs[x]) ** (ph[x] / 8))
+                ph[x] = 0
+        for (kind, a, b), o in zip(iops_v, cops_v):
+            if kind == 'Z':
+                ph[a] += b
+            elif kind == 'G':
+                po = o
+                for pos, x in enumerate(b):
+                    if ph[x] % 16:
+                        po = cirq.phase_by(po, -ph[x] / 16, pos)
+                sym.append(f'OGate {a}%nat {nat(b)} {zl([ph[x] for x in b])}'); exp_ops.append(po)
+            elif kind == 'S':
+                ph[b[0]], ph[b[1]] = ph[b[1]], ph[b[0]]
+                sym.append(f'OSwap {a}%nat {b[0]}%nat {b[1]}%nat'); exp_ops.append(o)
+            elif kind == 'M':
+                for x in b:
+                    ph[x] = 0
+                sym.append(f'OMeas {a}%nat {nat(b)}'); exp_ops.append(o)
+            else:
+                dump(b)
+                sym.append(f'OOpaque {a}%nat {nat(b)}'); exp_ops.append(o)
+        dump(range(nq))
+        def iterm(t):
+            kind, a, b = t
+            return {'Z': lambda: f'IZ {a}%nat {coq.zlit(b)}', 'G': lambda: f'IGate {a}%nat {nat(b)}', 'S': lambda: f'ISwap {a}%nat {b[0]}%nat {b[1]}%nat',
+                    'M': lambda: f'IMeas {a}%nat {nat(b)}', 'O': lambda: f'IOpaque {a}%nat {nat(b)}'}[kind]()
+        case_no += 1
+        cfg = Cfg('eject_z', 'model', None, 'semantic')
+        rep = dict(config=cfg.id, deep=False, ignore=True, circuit=repr(circuit), diagram=str(circuit), circuit_kind='ejectz-model', root_cause='')
+        try:
+            out = cirq.eject_z(circuit, context=cirq.TransformerContext(tags_to_ignore=(IGN,)))
+        except Exception as e:
+            ctx.violation(f'eject_z:raises:{type(e).__name__}:{error_class(str(e))}', f'eject_z raised {type(e).__name__}: {e} on\n{circuit}', dict(kind='raises', **rep))
+            continue
+        rep.update(output=repr(out), output_diagram=str(out))
+        checks.append(dict(case=case_no, what='ejectz', stream='eject_z[model]:model-vs-replica', cfg=cfg, rep=rep, desc=f'eject_z model on {str(circuit)[:400]}',
+                           expr=f'list_eqb oop_eqb (eject_z 16 {nat(range(nq))} [{"; ".join(iterm(t) for t in iops_v)}]) [{"; ".join(sym)}]'))
+        checks.append(dict(case=case_no, what='trace', stream='eject_z[model]:output-vs-model', cfg=cfg, rep=rep, desc=f'eject_z model on {str(circuit)[:400]}',
+                           expr=trace_terms(cirq, exp_ops, list(out.all_operations()), eq_plain)))
+        ctx.count('eject_z[model]', [rep['circuit']], any(t[0] == 'Z' for t in iops), sample=dict(transformer='eject_z[model]', circuit=str(circuit)[:300], output=str(out)[:300]))
+    return case_no
 
 
 def symbolized_stream(ctx, cirq, checks, case_no, n):
@@ -1103,10 +1214,11 @@ def run(ctx):
     case_no = gauge_sweep_stream(ctx, cirq, mods, checks, case_no)
     case_no = symbolized_stream(ctx, cirq, checks, case_no, 8 * mult)
     randomized_measurements_stream(ctx, cirq, 5 * mult)
+    case_no = ejectz_model_stream(ctx, cirq, checks, case_no, 60 * mult)
     failed = evaluate(ctx, checks)
     report(ctx, checks, failed)
     ctx.cov['programs'] = case_no
-    ctx.cov['coq_checks'] = dict(trace=sum(1 for c in checks if c['what'] == 'trace'), semantics=sum(1 for c in checks if c['what'] == 'semantics'))
+    ctx.cov['coq_checks'] = {w: sum(1 for c in checks if c['what'] == w) for w in ('trace', 'semantics', 'ejectz')}
     ctx.cov['transformers_run'] = sorted({c.name for c in configs})
 
 
